@@ -193,6 +193,19 @@ func (vc *VC) generate() {
 		if con.HasAssigns {
 			vc.topLocs = vc.evalLocs(con.Assigns, env)
 		}
+		for _, c := range con.Cases {
+			if !c.HasAssigns {
+				continue
+			}
+			var g Term = TTrue
+			if c.Guard != nil {
+				g = f.evalClause(Clause{Expr: c.Guard, Text: c.GuardText, Src: con.Src}, env)
+			}
+			for _, l := range vc.evalLocs(c.Assigns, env) {
+				l.guard = g
+				vc.topLocs = append(vc.topLocs, l)
+			}
+		}
 	}
 	vc.assumeGlobalInvs(f, env)
 	vc.assumeExportedLemmas()
